@@ -5,13 +5,17 @@ Parts
                   slice / time / vector axis and the pieces are merged back with DcmMetaExtension.from_sequence.
                   correspondence: Ext/ProofsRoundtripCorr.v check_ert (model round trip == observed merged extension);
                   oracle (implementation alone): merged == original (DcmMetaExtension.__eq__), per key identical
-                  (values, class) through get_values_and_class, same key set, check_valid.
+                  (values, class) through get_values_and_class, same key set, check_valid.  Every piece is SNAPSHOT before the
+                  merge (abstraction, to_json, per-key get_values_and_class, check_valid): the live pieces after the merge must
+                  equal their snapshots and still pass check_valid, merging the same piece objects a SECOND time must give the
+                  same result, and get_subset of the merged extension must return the snapshots.
   chains          image level: chains  split(d1) -> from_sequence -> split(d1) again -> split(d2) -> from_sequence -> ...
                   through NiftiWrapper.split / NiftiWrapper.from_sequence on real in-memory images with unique voxel values.
                   correspondence: check_chain (Wrapper/Model.v composed); oracle: after every merge the voxel data, the
                   affine (exactly), the header slice dim and the extension are the starting image's; splitting the merged
-                  image again returns pieces whose voxels and get_meta lookups at every voxel equal those of the pieces
-                  that were merged.
+                  image again returns pieces whose voxels, extension and get_meta lookups at every voxel equal those of the
+                  pieces AS THEY WERE BEFORE the merge (snapshots); the live pieces after the merge equal their snapshots (image
+                  bytes, affines, dim_info, extension, lookups) and merging them a second time gives the same wrapper.
 The image-half theorems (Props/C05img.v, agent of coq/Wrapper) are checked here too."""
 import copy, itertools
 
@@ -19,8 +23,9 @@ from vlib.coqlit import cnat, cbool, clist, cpair
 from props import extlib, imglib
 
 ID = 'C05'
-COQ_PROPS = ['Props/C05.v', 'Props/C05img.v']
-THEOREMS = ['C05_canonical_unique', 'C05_canonical_unique_key', 'C05_canonical_unique_strict',
+COQ_PROPS = ['Props/C05.v', 'Props/C05img.v', 'Props/C05total.v']
+THEOREMS = ['C05_split_all_total', 'C05_split_merge_total', 'C05_split_merge_mod_none_total', 'C05_chain_total',
+            'C05_canonical_unique', 'C05_canonical_unique_key', 'C05_canonical_unique_strict',
             'C05_split_merge', 'C05_split_merge_mod_none', 'C05_split_all_defined',
             'C05_split_merge_trailing1_refuted', 'C05_split_merge_no_slice_dim_refuted',
             'C05_merge_split', 'C05_merge_split_same_normal', 'C05_chain', 'C05_chain_sound',
@@ -102,6 +107,25 @@ def is_canonical_E(E):
     return extlib.is_nondegenerate(E)
 
 
+def snapshot_ext(x):
+    """Everything of an extension that a later call must leave alone, in plain (deep-copied) form: the abstraction, the
+    serialised JSON, per key (values, class) through get_values_and_class, and the verdict of check_valid."""
+    per_key = {}
+    for k in sorted(x.get_keys()):
+        v, c = x.get_values_and_class(k)
+        per_key[k] = [copy.deepcopy(extlib._plain(v)), list(c) if c is not None else None]
+    try:
+        x.check_valid()
+        valid = True
+    except Exception:           # noqa: BLE001
+        valid = False
+    try:
+        js = x.to_json()
+    except Exception as e:      # noqa: BLE001  (to_json refuses an extension that check_valid rejects)
+        js = 'exc:' + type(e).__name__
+    return {'abs': extlib.ext_to_json(x), 'json': js, 'per_key': per_key, 'valid': valid}
+
+
 def run_ext_roundtrip(case):
     def go():
         np, dcmmeta = extlib._imports()
@@ -109,11 +133,29 @@ def run_ext_roundtrip(case):
         ext = extlib.build_ext(E)
         before = extlib.ext_to_json(ext)
         pieces = [ext.get_subset(dim, i) for i in range(E['shape'][dim])]
+        snaps = [snapshot_ext(p) for p in pieces]             # BEFORE the merge
         aff = np.array(E['aff'], dtype=float) if case['with_aff'] else None
         sd = E['sdim'] if case['with_sd'] else None
         merged = dcmmeta.DcmMetaExtension.from_sequence(pieces, dim, aff, sd)
         out = {'ext': extlib.ext_to_json(merged), 'input_untouched': extlib.ext_to_json(ext) == before,
                'piece_shapes': [[int(x) for x in p.shape] for p in pieces]}
+        # (b) the live inputs after the merge against their snapshots
+        live = [snapshot_ext(p) for p in pieces]
+        out['pieces_changed'] = [i for i, (a, b) in enumerate(zip(snaps, live)) if a != b]
+        out['pieces_invalid'] = [i for i, b in enumerate(live) if not b['valid']]
+        # (c) the same piece objects merged a second time
+        try:
+            merged2 = dcmmeta.DcmMetaExtension.from_sequence(pieces, dim, aff, sd)
+            out['second'] = {'same': extlib.ext_to_json(merged2) == out['ext'] and bool(merged2 == merged)}
+        except Exception as e:      # noqa: BLE001
+            out['second'] = {'exc': type(e).__name__, 'msg': str(e)[:200]}
+        # (a) merge then split: the pieces of the merged extension against the SNAPSHOTS of the inputs
+        try:
+            again = [snapshot_ext(merged.get_subset(dim, i)) for i in range(len(pieces))]
+            out['resplit_diff'] = [i for i, (a, b) in enumerate(zip(snaps, again))
+                                   if (a['abs'], a['per_key'], a['valid']) != (b['abs'], b['per_key'], b['valid'])]
+        except Exception as e:      # noqa: BLE001
+            out['resplit_exc'] = '%s: %s' % (type(e).__name__, str(e)[:200])
         out['eq'] = bool(merged == ext) and bool(ext == merged)
         per_key = {}
         for k in sorted(set(ext.get_keys()) | set(merged.get_keys())):
@@ -129,6 +171,27 @@ def run_ext_roundtrip(case):
             out['valid'] = False
         return out
     return extlib._guard(go)
+
+
+def judge_inputs(obs, what='from_sequence'):
+    """Clauses about the INPUTS of a merge (shared by both parts): untouched, still valid, mergeable again to the same result,
+    and found again when the merged object is split."""
+    if obs.get('pieces_changed'):
+        return '%s modified its input %d (snapshot taken before the merge differs from the live object afterwards)' % (
+            what, obs['pieces_changed'][0])
+    if obs.get('pieces_invalid'):
+        return 'input %d fails check_valid after the merge' % obs['pieces_invalid'][0]
+    sec = obs.get('second')
+    if sec is not None:
+        if 'exc' in sec:
+            return 'merging the same pieces a second time raised %s: %s' % (sec['exc'], sec.get('msg'))
+        if not sec.get('same'):
+            return 'merging the same pieces a second time gave a different result'
+    if 'resplit_exc' in obs:
+        return 'splitting the merged object raised %s' % obs['resplit_exc']
+    if obs.get('resplit_diff'):
+        return 'merge then split: piece %d differs from the input as it was before the merge' % obs['resplit_diff'][0]
+    return None
 
 
 def ext_rt_to_coq(case, obs):
@@ -162,7 +225,7 @@ def oracle_ext_roundtrip(case, obs):
         return 'merged extension fails check_valid'
     if obs.get('input_untouched') is False:
         return 'the round trip modified the original extension'
-    return None
+    return judge_inputs(obs)
 
 
 class ExtRoundtripPart:
@@ -178,7 +241,9 @@ class ExtRoundtripPart:
             '(X,Y,Z,1,V) included, never a trailing singleton dim), 2-6 keys over the patterns per-vector-constant, per-volume, '
             'per-time, per-slice repeating, slice x time, irregular, None-heavy, constant-with-holes, late-change, with int / str / '
             'float / bool / list / nested values; EVERY admissible axis (slice dim, 3, 4) of each extension, from_sequence with and '
-            'without the affine / slice_dim arguments; non-trivial = some key in a varying class')
+            'without the affine / slice_dim arguments; plus a forced family of 3-D pieces carrying per-slice-varying keys (4-D along '
+            'time, (X,Y,Z,1,V) along the vector axis); inputs of every merge are snapshot before it and compared afterwards, merged '
+            'twice, and compared with the re-split pieces; non-trivial = some key in a varying class')
 
     @staticmethod
     def gen_cases(rng, tier):
@@ -198,6 +263,24 @@ class ExtRoundtripPart:
             for dim in rt_dims(E):
                 cases.append({'kind': 'ext-rt/5D-forced/%s' % ('slice' if dim == sd else ('time' if dim == 3 else 'vector')),
                               'ext': E, 'dim': dim, 'with_aff': rng.random() < 0.5, 'with_sd': rng.random() < 0.5})
+        # 3-D pieces that carry per-slice-varying meta data: 4-D along time, (X,Y,Z,1,V) along the vector axis
+        for _ in range(60 if tier == 'quick' else 400):
+            sd = rng.choice([0, 1, 2])
+            sh = [rng.randint(1, 2) for _ in range(3)]
+            sh[sd] = rng.randint(2, 3)
+            dim = rng.choice([3, 4])
+            sh += [rng.randint(2, 4)] if dim == 3 else [1, rng.randint(2, 4)]
+            d = extlib.dims({'shape': sh, 'sdim': sd})
+            ents = {}
+            for k in rng.sample(extlib.KEYNAMES, rng.randint(2, 4)):
+                f = extlib.gen_fn(rng, d, rng.choice(['slice', 'slice', 'slice_time', 'irregular', 'late_change', 'vol']),
+                                  alphabet=extlib.gen_alphabet(rng, rng.choice(['int', 'str', 'list'])))
+                e = extlib.encode(rng, sh, sd, f, 0.0)
+                if e is not None:
+                    ents[k] = e
+            E = extlib.mk_E(sh, sd, extlib.gen_affine(rng), ents)
+            cases.append({'kind': 'ext-rt/3D-pieces/%s' % ('time' if dim == 3 else 'vector'),
+                          'ext': E, 'dim': dim, 'with_aff': rng.random() < 0.5, 'with_sd': rng.random() < 0.5})
         return cases
 
     run_impl = staticmethod(run_ext_roundtrip)
@@ -264,6 +347,11 @@ def _lookups(w, keys):
     return out
 
 
+def snapshot_w(p, keys):
+    """Plain snapshot of a wrapper: image (data bytes, shape, affines, dim_info), extension (snapshot_ext) and every lookup."""
+    return {'img': repr(imglib.snapshot(p)[:5]), 'ext': snapshot_ext(p.meta_ext), 'lookups': _lookups(p, keys)}
+
+
 def run_chain(case):
     np, dcmmeta = extlib._imports()
     NW = dcmmeta.NiftiWrapper
@@ -275,12 +363,27 @@ def run_chain(case):
     try:
         for d in case['dims']:
             pieces = list(cur.split(d))
+            snaps = [snapshot_w(p, keys) for p in pieces]         # BEFORE the merge
             step = {'pieces': [{'data': [int(x) for x in np.asanyarray(p.nii_img.dataobj).ravel()],
-                                'shape': [int(x) for x in p.nii_img.shape], 'lookups': _lookups(p, keys)} for p in pieces]}
+                                'shape': [int(x) for x in p.nii_img.shape], 'lookups': sn['lookups'],
+                                'ext': sn['ext']['abs']} for p, sn in zip(pieces, snaps)]}
             out['steps'].append(step)
             merged = NW.from_sequence(pieces, d)
             step['merged'] = imglib.observe(merged)
             step['merged_eq'] = bool(merged.meta_ext == w.meta_ext)
+            live = []                                             # the live inputs AFTER the merge
+            for p in pieces:
+                try:
+                    live.append(snapshot_w(p, keys))
+                except Exception as e:    # noqa: BLE001  (an input damaged so badly that it cannot even be read)
+                    live.append({'img': None, 'ext': {'valid': False}, 'lookups': 'exc:' + type(e).__name__})
+            step['pieces_changed'] = [i for i, (a, b) in enumerate(zip(snaps, live)) if a != b]
+            step['pieces_invalid'] = [i for i, b in enumerate(live) if not b['ext']['valid']]
+            try:
+                m2 = imglib.observe(NW.from_sequence(pieces, d))  # the same objects merged a second time
+                step['second'] = {'same': m2 == step['merged']}
+            except Exception as e:    # noqa: BLE001
+                step['second'] = {'exc': type(e).__name__, 'msg': str(e)[:200]}
             again = list(merged.split(d))
             step['resplit'] = [dict(imglib.observe(p), lookups=_lookups(p, keys)) for p in again]
             cur = merged
@@ -333,12 +436,17 @@ def oracle_chain(case, obs):
             return '%s: merged extension differs from the original' % where
         if not st['merged_eq']:
             return '%s: merged extension != original (DcmMetaExtension.__eq__)' % where
+        m = judge_inputs(st, 'NiftiWrapper.from_sequence')
+        if m:
+            return '%s: %s' % (where, m)
         P, Q = st['pieces'], st['resplit']
         if len(P) != len(Q):
             return '%s: %d pieces merged, %d pieces after splitting again' % (where, len(P), len(Q))
         for i, (p, q) in enumerate(zip(P, Q)):
             if p['shape'] != q['shape'] or p['data'] != q['data']:
                 return '%s: merge then split: piece %d does not carry the voxels of input %d' % (where, i, i)
+            if p['ext'] != q['ext']:
+                return '%s: merge then split: the extension of piece %d differs from the input\'s as it was before the merge' % (where, i)
             for k in p['lookups']:
                 if p['lookups'][k] != q['lookups'][k]:
                     j = [x != y for x, y in zip(p['lookups'][k], q['lookups'][k])].index(True)
@@ -393,3 +501,11 @@ class ChainPart:
 
 
 PARTS = [ExtRoundtripPart, ChainPart]
+
+
+# source tie (integrator): the helper functions the extension model rests on are TRANSLATED from the Python AST on every
+# run (tools/tables/py2coq.py, t_src_ext.py -> Generated/T_src_ext.v) and the hand models are proved equal to the translation
+COQ_PROPS = (list(COQ_PROPS) if isinstance(COQ_PROPS, (list, tuple)) else [COQ_PROPS]) + ['Props/SRC.v']
+THEOREMS = list(THEOREMS) + ['SRC_valid_classes', 'SRC_class_valid', 'SRC_multiplicity', 'SRC_is_constant', 'SRC_is_repeating', 'SRC_const_period', 'SRC_n_slices']
+TABLES = sorted(set(list(globals().get('TABLES') or ['t_classes', 't_ext_tol']) + ['t_src_ext', 't_classes', 't_ext_tol']))
+TRUSTED_BASE = list(TRUSTED_BASE) + ['tools/tables/py2coq.py + t_src_ext.py: typed fail-closed translator of is_constant, is_repeating, get_valid_classes, get_multiplicity, _get_const_period, n_slices into Gallina; coq/Common/PyOps2.v as the meaning of the translated primitives']
